@@ -39,7 +39,9 @@ PROVED, for argument lists of any length, models with any number of reactions / 
       connects HistoryManager.reset's recursive run with the closed form; the group memberships of orphaned genes are restored by
       the GGADD entries (complete both ways by (B)) but this module carries no separate closed-form lemma for them.
 OBSERVATION (no defect): an orphaned gene keeps its `_model` pointer while it is outside model.genes (the code never clears it, with
-  or without a context); on exit it is a member again, so the pointer is right then.  Natively checked (see the final report of R7b).
+  or without a context); on exit it is a member again, so the pointer is right then.  Natively checked: 15 enter / remove (every ordered
+  selection of 3 reactions sharing genes, genes and metabolites in two groups, an objective) / leave / compare histories, no difference;
+  inside the block the orphaned gene is outside model.genes and still points at the model.
 
 PRECONDITIONS (stated, not proved here): those of the in-context contract (a context open, managers on the stack, a list of pairwise
 different members of model.reactions each pointing at the model, model.reactions well formed) and those of the no-context
@@ -65,7 +67,8 @@ loop#0/inv-preserve.39~2 undecided, which is discharged at the normal budget - i
   M3 the registration context(partial(group.add_members, [gene])) dropped              -> loop#3/inv-preserve.6 (trace length = entry length
      + groups visited) and .10 (entry nA + w is the GGADD of the w-th group) not discharged
   M4 context(partial(self.genes.add, gene)) registered twice                           -> loop#2/inv-preserve.26 (nothing twice: whGen)
-  M5 context(partial(group.add_members, [reaction])) in the gene's group loop          -> see the final report of R7b
+  M5 context(partial(group.add_members, [reaction])) in the gene's group loop          -> loop#3/inv-preserve.9 (every entry the loop makes is
+     the GGADD of the current gene) and .10 not discharged
 (all `unknown`, none `sat`: the clauses are quantified).
 """
 import z3
